@@ -1,14 +1,20 @@
 //@ unit u_graph
-//@ rlimit 400
+//@ rlimit 150
 // add_edge is verified by cases on (directed, multi_edges): one Verus run per case checks the real body against the
 // full contract under the extra precondition of that case (one joint query needs > 100 s and is unstable, each case
 // needs about 10 s); the main run checks every other function against add_edge's contract, and lemma_add_edge_cases_cover
-// shows that the four cases are exhaustive.
-//@ variants main dm ds um us
+// shows that the four cases are exhaustive. Each case is run twice: with the full contract, and (variants *c) with the core
+// clauses only (outcome ladder, no-ops, nodes, wf, position-keyed store): the core query is small enough that a broken ladder
+// or store update fails with a definite diagnostic instead of exhausting the solver's resource limit.
+//@ variants main dm ds um us dmc dsc umc usc
 //@ variant-args dm --verify-root --verify-function Graph::add_edge
 //@ variant-args ds --verify-root --verify-function Graph::add_edge
 //@ variant-args um --verify-root --verify-function Graph::add_edge
 //@ variant-args us --verify-root --verify-function Graph::add_edge
+//@ variant-args dmc --verify-root --verify-function Graph::add_edge
+//@ variant-args dsc --verify-root --verify-function Graph::add_edge
+//@ variant-args umc --verify-root --verify-function Graph::add_edge
+//@ variant-args usc --verify-root --verify-function Graph::add_edge
 #![allow(unused_imports)]
 use vstd::prelude::*;
 use vstd::std_specs::cmp::*;
